@@ -76,7 +76,7 @@ func configFor(r *mon.Run, kind string, stream uint64) walletlab.Config {
 	case walletlab.KindSequential:
 		cfg.Workers, cfg.Phases, cfg.OpsEach = 1, 4, 10
 	case walletlab.KindRestartDefect:
-		cfg.Workers, cfg.Regime = 1, regimes[stream%2] // v2 or mix: the pool must take v2 transactions
+		cfg.Workers, cfg.Regime = 1, regimes[stream%2]                                             // v2 or mix: the pool must take v2 transactions
 		cfg.Opts = walletlab.Opts{DefragThreshold: 30, MaxInputsForDefrag: 30, MaxDefragUTXOs: 10} // the package defaults
 		cfg.UTXOs = []int{3, 8, 20}[rng.IntN(3)]
 	case walletlab.KindExpiryShort:
